@@ -452,6 +452,19 @@ def fs6(ctx):
                 for (bj, pl, adt, edges) in b.discr_switches():
                     if place_path(known, pl) == [()] and 'None' in edges:
                         allowed.append(edges['None'])
+        # relays: an Option that is None only where one of the three reasons was found (`fn regular_file_name(..) ->
+        # io::Result<Option<String>>` returning Ok(None) for "not a file" and for "not UTF-8", then `None => continue`
+        # at the call site): the None edge of a test on it is the same skip, one hop later
+        for _round in range(3):
+            for (bj, pl, adt, edges) in b.discr_switches():
+                if 'None' not in edges or pl['p'] or edges['None'] in allowed:
+                    continue
+                org = b.trace_local(pl['l'])
+                if not org or not all(o[0] == 'rv' and o[2]['k'] == 'agg' and o[2].get('variant') in ('Some', 'None') for o in org):
+                    continue
+                nones = [o for o in org if o[2].get('variant') == 'None']
+                if nones and all(any(b.edge_dominates(e, o[1]) for e in allowed) for o in nones):
+                    allowed.append(edges['None'])
         # ... and what was collected reaches the tracker as it is: nothing removes numbers from the list afterwards
         lst = set()
         for ps in pushes:
@@ -469,3 +482,47 @@ def fs6(ctx):
                   'the directory scan has an additional way to skip an entry (some regular files with a valid WAL name are left untracked): a leftover wal-N would later collide with the exclusive create of that file, or its data would be ignored')
     if n == 0:
         ctx.missing('scan', 'no scan loop pushing file numbers found')
+
+
+def _parser_family(ctx, b):
+    """The name parser, the crate-local functions it calls and the closures it hands to adaptors (transitively)."""
+    seen, work = {b.id: b}, [b]
+    while work:
+        x = work.pop()
+        ids = [cs.node for cs in x.calls if cs.node is not None] + [fj.get('node') for (_p, fj) in x.fn_values]
+        for i in ids:
+            y = ctx.f.bodies.get(i)
+            if y is not None and y.id not in seen and (y.path.startswith('rolling::') or '{closure' in y.path):
+                seen[y.id] = y
+                work.append(y)
+    return list(seen.values())
+
+
+@rule('FS7', ['C10', 'C17'], floor=1, template='no-overflowing-arithmetic')
+def fs7(ctx):
+    """Turning a candidate file name into a number is total: the name parser (with the helpers and closures it
+    uses) accumulates nothing with `*` / `+` / `<<`, whose overflow panics in checked builds and wraps to a bogus
+    file number otherwise; 20 digits do not fit a u64, and str::parse::<u64>() answers Err for them."""
+    rd = name_readers(ctx)
+    if not rd:
+        ctx.missing('parser', 'name parser not found')
+        return
+    b = rd[0]
+    fam = _parser_family(ctx, b)
+    bad = []
+    for x in fam:
+        for bi, blk in enumerate(x.blocks):
+            if not x.live[bi]:
+                continue
+            for s in blk['stmts']:
+                if s['k'] == 'assign' and s['rv']['k'] == 'binop' and re.match(r'^(Mul|Add|Shl)', s['rv']['op']):
+                    tys = [x.local_ty(l) for l in (op_local(s['rv']['a']), op_local(s['rv']['b'])) if l is not None]
+                    if any(t in ('u64', 'u128') for t in tys):  # the number's type; length arithmetic (usize) is not the concern
+                        bad.append('%s (%s: %s)' % (x.loc(x.pstart[bi]), x.path, s['rv']['op']))
+            t = blk['term']
+            if t['k'] == 'call':
+                cs = x.call_at.get(x.pterm[bi])
+                if cs is not None and re.search(r'::(wrapping_mul|wrapping_add|unchecked_mul|unchecked_add|pow|wrapping_pow)$', cs.name):
+                    bad.append('%s (%s: %s)' % (x.loc(cs.point), x.path, cs.name[-30:]))
+    ctx.check(not bad, 'no-accumulation', b.span, 'no multiplying / adding accumulation over the name in the %d bodies of the name parser' % len(fam),
+              'the name parser computes the file number with arithmetic that overflows on a 20-digit name (%s): open panics (checked builds) or takes a bogus number (release) for a stray `wal-99999999999999999999`' % sorted(set(bad)))
